@@ -444,11 +444,11 @@ impl Unit {
         // 4. Assert: unit is one of "millisecond", "microsecond", or "nanosecond".
         // 5. Return 1000.
         let max = match self {
-            Year | Month | Week | Day => return None,
+            // `Auto` is not a concrete unit and has no maximum either.
+            Year | Month | Week | Day | Auto => return None,
             Hour => 24,
             Minute | Second => 60,
             Millisecond | Microsecond | Nanosecond => 1000,
-            Auto => unreachable!(),
         };
 
         Some(max)
